@@ -87,6 +87,11 @@ impl<F: Fn(TracingEvent) + Send + Sync + 'static> Subscriber for Tee<F> {
         if self.is_off() {
             return Id::from_u64(u64::MAX);
         }
+        // the creation that is going to fail (`run_prog_with`) goes straight to the sender: the tee
+        // neither renders its values nor logs it; what happens inside it is logged as usual
+        if OUTER_CREATION.with(|o| o.replace(false)) {
+            return self.sender.new_span(attrs);
+        }
         let meta = addr(attrs.metadata());
         let parent = if attrs.is_root() {
             SParent::Root
@@ -175,6 +180,10 @@ impl<F: Fn(TracingEvent) + Send + Sync + 'static> Subscriber for Tee<F> {
     }
 }
 
+thread_local! {
+    static OUTER_CREATION: std::cell::Cell<bool> = const { std::cell::Cell::new(false) };
+}
+
 // ---- running one program ---------------------------------------------------------------------
 
 struct Obs {
@@ -184,6 +193,15 @@ struct Obs {
 }
 
 fn run_prog(prog: &Prog, sites: &[&'static DynSite], start: u32) -> Obs {
+    run_prog_with(prog, sites, start, false)
+}
+
+/// `failed_first`: the program's first operation (a span creation) is performed by the `Debug` impl of
+/// an attribute of ANOTHER span that is being created - through an explicit dispatcher handle, so that
+/// tracing-core's re-entrancy guard is not involved -, and that impl then panics; the guest catches the
+/// panic and goes on with the rest of the program.  The outer creation reserved one span id and emitted
+/// nothing: the run must look like the plain run of the program under a sender that starts one id later.
+fn run_prog_with(prog: &Prog, sites: &[&'static DynSite], start: u32, failed_first: bool) -> Obs {
     let events: Arc<Mutex<Vec<TracingEvent>>> = Arc::new(Mutex::new(vec![]));
     let log: Arc<Mutex<Vec<Call>>> = Arc::new(Mutex::new(vec![]));
     let off = Arc::new(AtomicBool::new(false));
@@ -198,7 +216,30 @@ fn run_prog(prog: &Prog, sites: &[&'static DynSite], start: u32) -> Obs {
     let mut panicked = false;
     tracing::dispatcher::with_default(&dispatch, || {
         let mut r = ExecResult::default();
-        for (tid, op) in &prog.ops {
+        let mut skip = 0;
+        if failed_first {
+            let cell = std::rc::Rc::new(std::cell::RefCell::new(std::mem::take(&mut r)));
+            let (hook_cell, hook_sites, first) = (cell.clone(), sites.to_vec(), prog.ops[0].1.clone());
+            let hook: std::rc::Rc<dyn Fn(&str)> = std::rc::Rc::new(move |text: &str| {
+                if text == "hostile#creates-a-span-then-panics" {
+                    exec_op(&mut hook_cell.borrow_mut(), &hook_sites, &first);
+                    std::panic::resume_unwind(Box::new("guest Debug impl panics"));
+                }
+            });
+            DEBUG_HOOK.with(|h| *h.borrow_mut() = Some(hook));
+            let outer = make_site(&site(CallSiteKind::Span, "creation that fails", &["v"]));
+            let _ = outer.interest();
+            let handle = tracing::dispatcher::get_default(Dispatch::clone);
+            let vals: ValSet = vec![(0, Some(Prim::Debug(Obj { display: "-".into(), debug: "hostile#creates-a-span-then-panics".into() })))];
+            OUTER_CREATION.with(|o| o.set(true));
+            let failed = catch_unwind(AssertUnwindSafe(|| with_value_set(outer, &vals, |vs| Span::new_with(outer.metadata(), vs, &handle)))).is_err();
+            OUTER_CREATION.with(|o| o.set(false));
+            DEBUG_HOOK.with(|h| *h.borrow_mut() = None);
+            assert!(failed, "the outer creation is left by a panic");
+            r = std::rc::Rc::try_unwrap(cell).ok().expect("the hook is gone").into_inner();
+            skip = 1;
+        }
+        for (tid, op) in prog.ops.iter().skip(skip) {
             assert_eq!(*tid, 0, "C12 programs are single-threaded");
             // the guest's tracing call may panic (`Id::from_u64(0)` at the wrap): the run stops there
             if catch_unwind(AssertUnwindSafe(|| exec_op(&mut r, sites, op))).is_err() {
@@ -356,6 +397,36 @@ fn prog_case(sink: &mut Sink, idx: u64, kind: &str, prog: &Prog, start: u32) {
     });
     let nontrivial = obs.events.iter().filter(|e| !matches!(e, TracingEvent::NewCallSite { .. })).count() >= 3;
     sink.case(idx, kind, &judge, &key, nontrivial, || serde_json::json!({ "start": start, "prog": cprog(prog) }));
+}
+
+/// see `run_prog_with`: judged as the plain run under a sender that starts at `start + 1`
+fn failed_first_case(sink: &mut Sink, idx: u64, prog: &Prog, start: u32) {
+    if !sink.wants(idx) {
+        return;
+    }
+    if !matches!(prog.ops.first(), Some((_, Op::NewSpan(_, ParentKind::Ctx | ParentKind::Root, _)))) || start == u32::MAX {
+        sink.bump("failed-first:program-does-not-start-with-a-span");
+        return;
+    }
+    let key = format!("failed-first {start} {}", cprog(prog));
+    let sites = make_sites(&prog.sites);
+    let obs = run_prog_with(prog, &sites, start, true);
+    intern_begin();
+    let canon = canonicalise(&obs, &sites);
+    let term = format!(
+        "judge_sender {} {} (mk_sobs [{}] [{}] {} {} {})",
+        start + 1,
+        cprog(prog),
+        canon.calls.join("; "),
+        canon.events.join("; "),
+        cbool(obs.panicked),
+        canon.foreign_calls,
+        canon.foreign_events
+    );
+    let judge = intern_wrap(&term);
+    sink.bump("failed-first:run");
+    let nontrivial = obs.events.iter().filter(|e| !matches!(e, TracingEvent::NewCallSite { .. })).count() >= 3;
+    sink.case(idx, "after-a-failed-creation", &judge, &key, nontrivial, || serde_json::json!({ "start": start, "prog": cprog(prog), "first_operation_performed_by": "the Debug impl of an attribute of a span creation that then panics" }));
 }
 
 // ---- hand-written programs -------------------------------------------------------------------
@@ -746,6 +817,26 @@ pub fn run(o: &Opts) {
                 }
             };
             prog_case(&mut sink, idx, "random-offset", &prog, start);
+        }
+        idx += 1;
+    }
+
+    // 4b. the program's first span is created inside a span creation that fails
+    let n_failed = if o.thorough { 6_000 } else { 200 } * o.scale;
+    for _ in 0..n_failed {
+        if sink.wants(idx) {
+            let mut r = Rng::for_case(o.seed, "C12-failed-first", idx);
+            let mut cfg = GenCfg::balanced("c12");
+            cfg.weights[0] = 40;
+            let mut prog = gen_prog(&mut r, &cfg);
+            // start with a span creation: drop what comes before the first contextual / root one
+            if let Some(p) = prog.ops.iter().position(|(_, op)| matches!(op, Op::NewSpan(..))) {
+                if p > 0 && prog.ops[..p].iter().all(|(_, op)| matches!(op, Op::Event(_, ParentKind::Ctx | ParentKind::Root, _))) {
+                    prog.ops.drain(..p);
+                }
+            }
+            let start = if r.chance(50) { 1 } else { 1 + r.below(1_000_000) as u32 };
+            failed_first_case(&mut sink, idx, &prog, start);
         }
         idx += 1;
     }
